@@ -49,6 +49,9 @@ VMODELS = {
     'v9': dict(lib='SAED90', ports=[('a', 'in', None), ('b', 'in', (1, 0)), ('z', 'out', None), ('o', 'out', (1, 0))], wires=[('x', None), ('y', None), ('t', (1, 0))],
                inst=[('INVX1', 'g', {'INP': 'y', 'ZN': 'z'}), ('AND2X1', 'h', {'IN1': 't[1]', 'IN2': 't[0]', 'Q': 'o[0]'})],
                assigns=[('y', 'x'), ('x', 'a'), ('t', 'b'), ('o[1]', 'y')]),
+    'v10': dict(lib='SAED90', ports=[('a', 'in', None), ('y', 'out', None), ('z', 'out', None), ('k', 'out', (1, 0))], wires=[('w', None), ('v', None), ('u', (1, 0))],
+               inst=[('AND2X1', 'g', {'IN1': 'a', 'IN2': 'y', 'Q': 'z'})],
+               assigns=[('y', 'w'), ('w', 'v'), ('v', "1'b1"), ('k', 'u'), ('u', "2'b01")]),
     'v8': dict(lib='SAED90', ports=[('a', 'in', (1, 0)), ('z', 'out', (3, 0))], wires=[], inst=[('INVX1', 'g', {'INP': 'a[1]', 'ZN': 'z[3]'})],
                assigns=[(['concat', 'z[2]', 'z[1]', 'z[0]'], ['concat', 'a[0]', "2'b10"])]),
 }
